@@ -14,7 +14,7 @@ pub fn meta() -> PropertyMeta {
     PropertyMeta {
         id: "C06",
         level: "exploration",
-        rule: "messages of 1..5 units whose headers designate leaves of a fixed tree, each unit carrying 0..5 data of any of the seven kinds with any legal white space and every message ending; per unit a handler plan pulling 0..6 parameters, each required or optional, through next_token / next_optional_token and (where the element kind makes the result predictable, and beyond the supplied data) next_data::<T> / next_optional_data::<T>. Oracle by construction: offered tokens = the unit's own data in order; the first required pull beyond them gives -109, an optional one None; unconsumed data give -108 and stop the message. Non-trivial: pulled != supplied, or a unit with parameters followed by another unit with parameters.",
+        rule: "messages of 1..5 units whose headers designate leaves of a fixed tree, each unit carrying 0..5 data of any of the seven kinds with any legal white space and every message ending; per unit a handler plan pulling 0..6 parameters, each required or optional, through next_token / next_optional_token and (where the element kind makes the result predictable, and beyond the supplied data) next_data::<T> / next_optional_data::<T>. Oracle by construction: offered tokens = the unit's own data in order; the first required pull beyond them gives -109, an optional one None; unconsumed data give -108 and stop the message. PLUS from bytes (props/execdiff.rs, arity mode): ALL strings of up to 7 (8) tokens on the fixed tree x handlers pulling exactly 0, 1, 2, 3 required elements (first unit with a different data count fails with -109 / -108, seen data = its own), and units of 2^8 / 2^16 +- 1 data elements. Non-trivial: pulled != supplied, or a unit with parameters followed by another unit with parameters.",
         assumptions: &["messages come from the sound 488.2 grammar subset of DESIGN 3.1; headers are absolute so that path resolution plays no role"],
         run,
     }
